@@ -43,7 +43,9 @@ QueueCheck(e, A) ==
   /\ \A f \in Slots : /\ (e.nst[f] = "reg") <=> InSeq(e.q, f)
                       /\ (A[f] = "none") <=> (e.nst[f] = "none")
 
-ClosesNow(e) == \/ e.op = "close"
+\* (threaded runs log the drop of the last handle of a side as dec_sender / dec_receiver where the
+\* counter is updated, and late_close for the critical section that follows)
+ClosesNow(e) == \/ e.op \in {"close", "late_close"}
                 \/ (e.op = "drop_sender" /\ oSenders = 1)
                 \/ (e.op = "drop_receiver" /\ oReceivers = 1)
 
@@ -93,9 +95,9 @@ ObsStep(e) ==
   /\ oClosedEv' = (oClosedEv \/ ClosesNow(e))
   /\ oWoken' = [f \in Slots |-> W0[f] \/ (A[f] = "pending" /\
                     \E i \in 1..Len(ws) : ws[i][1] = f /\ ws[i][2] = LW[f])]
-  /\ oSenders' = IF e.op = "drop_sender" THEN oSenders - 1 ELSE oSenders
+  /\ oSenders' = IF e.op \in {"drop_sender", "dec_sender"} THEN oSenders - 1 ELSE oSenders
   /\ oReceivers' = CASE e.op = "clone_receiver" -> oReceivers + 1
-                     [] e.op = "drop_receiver" -> oReceivers - 1
+                     [] e.op \in {"drop_receiver", "dec_receiver"} -> oReceivers - 1
                      [] OTHER -> oReceivers
   /\ bad' = StepBad(e, A, Ful)
 
